@@ -52,5 +52,16 @@ ENTRY = dict(
             "in the pool machine the producer stage is represented by arrivals only; the producer loop itself is Model/Producer.lean, whose read outcomes are those of the reader model (C01/C04/C14) plus timeout / other exception",
             "producer machine: frames put on the write queue by other tasks enter at cycle boundaries (between the loop test and the previous read's completion); real time between them is not modelled",
         ],
+        public_routes={
+            "AsyncProtocol(ethernet_parameters=, wireless_parameters=, consumers_count=)": "driven + compared (4 presets + random network parameters, default-only forms; consumers_count 1..5; the DeviceAvailable reply bytes must carry exactly these parameters)",
+            "open_tcp_connection / open_serial_connection(protocol=AsyncProtocol(...))": "same protocol object; the Connection wrapper is driven in C10 (reconnect) and C11/C12, not again here (kwargs other than protocol= / reconnect_on_failure= go to asyncio.open_connection, not to the protocol)",
+            "connection_established -> producer + consumers": "driven + compared (every case); StartMaster first on the transport: producer stage",
+            "controller requests (64 / 48) -> EcoMAX.handle_frame -> Request.response() -> write queue -> transport": "driven + compared byte for byte (addressed to the library and broadcast; from ecoSTER / addresses without device class: no reply)",
+            "frames for ecoSTER (81) / ECONET (86) / ALL (0)": "driven + compared",
+            "shutdown()": "driven (after every case; must complete)",
+            "on_connection_lost / loss of the connection": "producer stage: driven + compared (loss announced once); pool stage: one unjudged scenario (loss with a backlog, see notes)",
+            "subscribe on device events (delivery)": "observed through the dispatch tasks the consumers create (task factory), not through subscriptions",
+            "DummyProtocol": "not applicable (no consumers, no automatic replies)",
+        },
         timeout={"quick": 300, "thorough": 1800},
     )
